@@ -265,14 +265,18 @@ Definition apply_pm (m : pmig) (p : text) : text :=
 (* the loop of asParamMigratorsWithDefaults over i = 0 .. max(len old, len defaults) - 1;
    paramMigrators[i] exists because len old <= len pms was checked and len defaults <= len pms holds for
    the table (checked by the translator) *)
-Fixpoint migrate_params (pms : list pmig) (old defaults : list text) : list text :=
+Fixpoint migrate_params (pms : list pmig) (old defaults : list text) : option (list text) :=
   match pms with
-  | [] => []
+  | [] => Some []
   | m :: pms' =>
       match old, defaults with
-      | [], [] => []
-      | o :: old', _ => apply_pm m o :: migrate_params pms' old' (tl defaults)
-      | [], d :: defaults' => apply_pm m d :: migrate_params pms' [] defaults'
+      | [], [] => Some []
+      | o :: old', _ => option_map (cons (apply_pm m o)) (migrate_params pms' old' (tl defaults))
+      | [], d :: defaults' =>
+          match d with
+          | [] => None                          (* a parameter without a default is required *)
+          | _ => option_map (cons (apply_pm m d)) (migrate_params pms' [] defaults')
+          end
       end
   end.
 
@@ -358,7 +362,7 @@ Fixpoint migrate_cmig (m : cmig) (fname : text) (params : list text) : option te
       end
   | Params n defaults pms =>
       if Nat.ltb (length pms) (length params) then None
-      else Some (render_call n (migrate_params pms params defaults))
+      else option_map (render_call n) (migrate_params pms params defaults)
   | DateDif => Some (render_call t_datetime_diff (datedif_params params))
   | Optional required defaults inner => migrate_cmig inner fname (with_defaults required defaults params)
   end.
@@ -485,10 +489,31 @@ Section Visitor.
     | _ => false
     end.
 
+  (* len(string) of Go: bytes of the UTF-8 encoding *)
+  Definition utf8_len (s : text) : nat :=
+    fold_right (fun (c : N) (n : nat) =>
+                  ((if (c <? 128)%N then 1 else if (c <? 2048)%N then 2 else if (c <? 65536)%N then 3 else 4) + n)%nat) O s.
+
+  (* legacyVisitor.Visit with maxLength: a migrated (sub)expression longer than the limit is replaced by "0" and the
+     error is remembered.  The replacement only matters for what is then thrown away; the error is raised exactly when
+     some subexpression migrates (without any replacement below it) to more than the limit. *)
+  Fixpoint too_long (mx : nat) (e : e1) : bool :=
+    Nat.ltb mx (utf8_len (visit e)) ||
+    match e with
+    | E1Paren x => too_long mx x
+    | E1Neg x => too_long mx x
+    | E1Bin _ a b => too_long mx a || too_long mx b
+    | E1Call _ args => existsb (too_long mx) args
+    | _ => false
+    end.
+
+  (* maxMigratedGrowth * len(expression) + maxMigratedSlack *)
+  Definition max_migrated_length (expression : text) : nat := (100 * utf8_len expression + 1000)%nat.
+
   (* migrateExpression: None = the legacy parser reported a syntax error *)
   Definition migrate_expression (expression : text) : option text :=
     match parse1 expression with
-    | Some e => if visit_errs e then None else Some (visit e)
+    | Some e => if visit_errs e || too_long (max_migrated_length expression) e then None else Some (visit e)
     | None => None
     end.
 
@@ -556,9 +581,11 @@ Section Visitor.
           end
     end.
 
-  Definition following_of (rest : list seg) : text :=
+  (* the text directly after a token, i.e. after any @("") tokens, which are removed *)
+  Fixpoint following_of (rest : list seg) : text :=
     match rest with
     | SBody t :: _ => t
+    | SExpr t :: r => if text_eqb t t_empty_literal then following_of r else []
     | _ => []
     end.
 
